@@ -5,6 +5,6 @@ PROP = dict(
         level_text="Fault enumeration: for every generated (format, writer options, value sequence) case, every sink write position and every failure mode is executed and the error-reporting oracle checked; the input space itself is sampled by rapid.",
         level_note="Trusted: the fault-injecting sink (harness code), the repo's readers for the fault-free readability check. The lake part injects failures into every storage write step of Branch.Load over the harness's in-memory engine. Not covered: arrows/parquet writers, failures of the sink's Close.",
         technique="property-based testing (rapid) with exhaustive fault-position enumeration per generated case",
-        tests=[dict(name="TestSinkFaults", quick=(8, 120), thorough=(16, 60), timeout=dict(quick=1500, thorough=3400)),
+        tests=[dict(name="TestSinkFaults", quick=(8, 120), thorough=(16, 100), timeout=dict(quick=1500, thorough=3400)),
                dict(name="TestLakeLoadFaults", quick=(4, 10), thorough=(8, 40))],
 )
